@@ -15,9 +15,9 @@ void harness(void)
     long c = xb_recv_calls;
     int rv = btcp_receive(s, buf, capacity);
 #ifdef XB_CAP0
-    if (xb_recv_calls == c + 1 && xb_recv_ret == 0) XV_CANARY("recv(2) of 0 bytes returns 0");
-    if (rv == -1 && xv_errno == EAGAIN && xb_recv_calls == c + 1) XV_CANARY("kernel says EAGAIN");
-    if (rv == 0 && xb_recv_calls == c) XV_CANARY("closed: 0");
+    if (rv == 0 && !xv_rx_eof) XV_CANARY("0 bytes asked for, 0 returned, no end of stream seen");
+    if (rv == -1 && xv_errno == EAGAIN) XV_CANARY("EAGAIN");
+    if (rv == 0 && xv_rx_eof && xb_recv_calls == c) XV_CANARY("closed: 0");
 #else
 #ifdef XB_HUGE
     if (rv == 1) XV_CANARY("one byte");
